@@ -155,7 +155,9 @@ def run_case(case, ctx):
             raise
     warned = sum(1 for w in rec if issubclass(w.category, UserWarning) and "Could not achieve the required precision" in str(w.message))
     rays = [d for nm, d in RAYS if nm == f"{method}_ray"]
-    x, y = before[:, 0], before[:, 1]
+    # (the oracle compares in double precision - the conversion of an int / float32 sample is exact - so that a Python
+    #  float on the other side of a comparison is not rounded to the sample's dtype)
+    x, y = before[:, 0].astype(np.float64), before[:, 1].astype(np.float64)
     info = {"method": method, "alpha": alpha, "deg_step": ds, "allowed_error": ae, "n": int(len(before)), "zeros": case["zeros"], "round": case["round"]}
     coords = np.array([[float(np.asarray(a).ravel()[0]) for a in row] for row in np.asarray(con.coordinates, dtype=object)], float)
     ctx.sample = {**info, "n_rays": len(rays), "warned": warned, "first_points": coords[:3].tolist()}
